@@ -62,7 +62,12 @@ func c16(c *engine.Ctx) {
 func c16gated(f *engine.Fn, debit *engine.Site, addrIdx, coinsIdx int) (bool, string) {
 	g := f.Graph()
 	why := "no dominating CheckAndDeductSessionSpend"
-	for _, h := range f.CallsTo(c16A + ".CheckAndDeductSessionSpend") {
+	for _, hd := range kcDeepCalls(f, c16A+".CheckAndDeductSessionSpend") {
+		h := hd.Outer
+		if hd.Inner != hd.Outer && !kcHelperPropagatesErr(hd) {
+			why = "the helper wrapping the session hook does not return the hook's error on every path"
+			continue
+		}
 		r := g.CheckedGuard(h, debit)
 		if !r.OK {
 			why = "hook result does not gate the debit: " + r.Why
@@ -76,29 +81,31 @@ func c16gated(f *engine.Fn, debit *engine.Site, addrIdx, coinsIdx int) (bool, st
 			why = "the hook's error test is weakened: `" + engine.ExprString(r.Cond) + "`"
 			continue
 		}
-		if engine.ExprString(kcArg(h, 2)) != engine.ExprString(kcArg(debit, addrIdx)) {
-			why = "hook charges `" + engine.ExprString(kcArg(h, 2)) + "` but `" + engine.ExprString(kcArg(debit, addrIdx)) + "` is debited"
+		hAddr, hCoins := kcResolve(f, hd.Arg(2)), kcResolve(f, hd.Arg(3))
+		dAddr, dCoins := kcResolve(f, kcArg(debit, addrIdx)), kcResolve(f, kcArg(debit, coinsIdx))
+		if engine.ExprString(hAddr) != engine.ExprString(dAddr) {
+			why = "hook charges `" + engine.ExprString(hAddr) + "` but `" + engine.ExprString(dAddr) + "` is debited"
 			continue
 		}
-		if engine.ExprString(kcArg(h, 3)) != engine.ExprString(kcArg(debit, coinsIdx)) {
-			why = "hook counts `" + engine.ExprString(kcArg(h, 3)) + "` but `" + engine.ExprString(kcArg(debit, coinsIdx)) + "` is moved"
+		if engine.ExprString(hCoins) != engine.ExprString(dCoins) {
+			why = "hook counts `" + engine.ExprString(hCoins) + "` but `" + engine.ExprString(dCoins) + "` is moved"
 			continue
 		}
 		// the expressions must denote the same values at both sites: only params / range vars / single-def locals
-		ok := true
-		for _, e := range []ast.Expr{kcArg(h, 2), kcArg(h, 3)} {
+		stable := true
+		for _, e := range []ast.Expr{hAddr, hCoins} {
 			ast.Inspect(e, func(n ast.Node) bool {
 				if id, isID := n.(*ast.Ident); isID {
 					if v, isVar := f.Info().ObjectOf(id).(*types.Var); isVar && !v.IsField() {
 						if rhs, okd := kcDefs(f, v); len(rhs) > 1 || (!okd && kcParamIndex(f, v) >= 0) {
-							ok = false
+							stable = false
 						}
 					}
 				}
 				return true
 			})
 		}
-		if !ok {
+		if !stable {
 			why = "address/coins variables are reassigned between hook and debit"
 			continue
 		}
@@ -188,7 +195,7 @@ func c16gates(c *engine.Ctx, p *engine.Prog) {
 				daObj := engine.ObjOf(info, kcArg(d, 0))
 				var condBlock *cfg.Block
 				var mapKey ast.Expr
-				for _, gt := range g.Gates(d) {
+				for _, gt := range kcGates(g, d) {
 					id, isID := ast.Unparen(gt.Cond).(*ast.Ident)
 					if !isID || !gt.OnTrue {
 						continue
@@ -206,7 +213,7 @@ func c16gates(c *engine.Ctx, p *engine.Prog) {
 				}
 				if condBlock == nil {
 					// weakened or absent lookup condition
-					for _, gt := range g.Gates(d) {
+					for _, gt := range kcGates(g, d) {
 						if len(engine.Atoms(gt.Cond)) > 1 && strings.Contains(engine.ExprString(gt.Cond), "ok") {
 							why = "the session-exists test is combined with another condition: `" + engine.ExprString(gt.Cond) + "`"
 						}
@@ -273,56 +280,27 @@ func c16spend(c *engine.Ctx, p *engine.Prog) {
 	if d == nil || k == nil {
 		return
 	}
-	// sibling: normalised if-conditions (params by index)
-	norm := func(f *engine.Fn) []string {
-		var out []string
-		engine.InspectBody(f, func(n ast.Node) {
-			is, ok := n.(*ast.IfStmt)
-			if !ok {
-				return
-			}
-			s := engine.ExprString(is.Cond)
-			// replace parameter names by $i (whole-word)
-			k := 0
-			for _, fld := range f.Type.Params.List {
-				for _, nm := range fld.Names {
-					s = c16replaceWord(s, nm.Name, "$"+itoa(k))
-					k++
-				}
-			}
-			out = append(out, s)
-		})
-		return out
+	type spendInfo struct {
+		discards, canonical bool
 	}
-	dn, kn := norm(d), norm(k)
-	c.Floor("spend-sibling", len(dn), 4)
-	// the first three conditions (zero amount, empty limit, period reset) must be identical
-	same := len(dn) >= 3 && len(kn) >= 3
-	for i := 0; same && i < 3; i++ {
-		if dn[i] != kn[i] {
-			same = false
-		}
-	}
-	kcAt(c, p, "spend-sibling", "CheckSessionSpend ≡ DeductSessionSpend (zero / empty-limit / period-reset conditions)", d.Pos(), same,
-		"Deduct: "+strings.Join(dn, " ; ")+"  |  Check: "+strings.Join(kn, " ; "))
-
+	infoOf := map[*engine.Fn]*spendInfo{}
 	for _, f := range []*engine.Fn{d, k} {
-		info := f.Info()
+		si := &spendInfo{canonical: true}
+		infoOf[f] = si
 		g := f.Graph()
 		da, amount, bt := paramObj(f, 0), paramObj(f, 1), paramObj(f, 2)
-		// success exits: `return nil` after the limit test must be gated by IsAllGTE(newUsed) with newUsed = <used>.Add(amount)
+		finfo := f.Info()
 		nEx := 0
 		for _, ex := range kcNormalExits(f) {
 			rs, isRet := ex.Node.(*ast.ReturnStmt)
 			if !isRet || len(rs.Results) != 1 || !isNil(rs.Results[0]) {
 				continue
 			}
+			facts := kcFacts(g, ex)
 			zero := false
-			for _, ft := range kcFacts(g, ex) {
-				if call, isCall := ast.Unparen(ft.Expr).(*ast.CallExpr); isCall && ft.Val {
-					if se, isSel := call.Fun.(*ast.SelectorExpr); isSel && se.Sel.Name == "IsZero" && engine.ObjOf(info, se.X) == amount {
-						zero = true
-					}
+			for _, ft := range facts {
+				if c16isMethodOn(f, ft.Expr, "IsZero", amount) && ft.Val {
+					zero = true
 				}
 			}
 			if zero {
@@ -331,40 +309,35 @@ func c16spend(c *engine.Ctx, p *engine.Prog) {
 			nEx++
 			okLim, okNonEmpty := false, false
 			why := "success is not gated by SpendLimit.IsAllGTE(used + amount)"
-			for _, ft := range kcFacts(g, ex) {
-				call, isCall := ast.Unparen(ft.Expr).(*ast.CallExpr)
-				if isCall && ft.Val && len(call.Args) == 1 {
-					if se, isSel := call.Fun.(*ast.SelectorExpr); isSel && se.Sel.Name == "IsAllGTE" && engine.ExprString(se.X) == da.Name()+".GetSpendLimit()" {
-						nu := engine.ObjOf(info, call.Args[0])
-						def := kcSingleDef(f, nu)
-						if dc, isC := def.(*ast.CallExpr); isC && len(dc.Args) == 1 && engine.ObjOf(info, dc.Args[0]) == amount {
-							if ds, isS := dc.Fun.(*ast.SelectorExpr); isS && ds.Sel.Name == "Add" {
-								used := engine.ExprString(ds.X)
-								if used == da.Name()+".GetSpendUsed()" {
-									okLim = true
-								} else if uo := engine.ObjOf(info, ds.X); uo != nil {
-									// local: only da.GetSpendUsed() or nil (under the reset condition)
-									rhs, okd := kcDefs(f, uo)
-									okLim = okd && len(rhs) > 0
-									for _, r := range rhs {
-										if !(engine.ExprString(r) == da.Name()+".GetSpendUsed()" || isNil(r)) {
-											okLim = false
-										}
-									}
-								}
-								if !okLim {
-									why = "the amount compared with the limit is `" + engine.ExprString(def) + "`"
-								}
-							}
-						} else {
-							why = "the quantity compared with the limit is `" + engine.ExprString(call.Args[0]) + "`, not used.Add(amount)"
+			for _, ft := range facts {
+				if call, isCall := ast.Unparen(ft.Expr).(*ast.CallExpr); isCall && ft.Val && len(call.Args) == 1 {
+					if se, isSel := call.Fun.(*ast.SelectorExpr); isSel && se.Sel.Name == "IsAllGTE" && c16isMethodOn(f, se.X, "GetSpendLimit", da) {
+						sum := kcResolve(f, call.Args[0])
+						sc, isC := sum.(*ast.CallExpr)
+						var ss *ast.SelectorExpr
+						if isC {
+							ss, _ = sc.Fun.(*ast.SelectorExpr)
 						}
+						if !isC || ss == nil || ss.Sel.Name != "Add" || len(sc.Args) != 1 || engine.ObjOf(finfo, kcResolve(f, sc.Args[0])) != amount {
+							why = "the quantity compared with the limit is `" + engine.ExprString(sum) + "`, not used.Add(amount)"
+							continue
+						}
+						uok, nilable, uwhy := c16usage(f, ss.X, da, bt)
+						if !uok {
+							why = "the usage the amount is added to is not the session's current usage: " + uwhy
+							si.canonical = false
+							continue
+						}
+						if nilable {
+							si.discards = true
+						}
+						okLim = true
 					}
 				}
 				x, y, op, okc := kcCmp(ft)
-				if okc && op == token.NEQ {
-					if lc, isC := x.(*ast.CallExpr); isC && engine.IsBuiltinCall(info, lc, "len") && engine.ExprString(lc.Args[0]) == da.Name()+".GetSpendLimit()" {
-						if lit, isLit := y.(*ast.BasicLit); isLit && lit.Value == "0" {
+				if okc && (op == token.NEQ || op == token.GTR) {
+					if lc, isC := ast.Unparen(x).(*ast.CallExpr); isC && engine.IsBuiltinCall(finfo, lc, "len") && c16isMethodOn(f, lc.Args[0], "GetSpendLimit", da) {
+						if tv, okv := finfo.Types[y]; okv && tv.Value != nil && tv.Value.ExactString() == "0" {
 							okNonEmpty = true
 						}
 					}
@@ -374,70 +347,76 @@ func c16spend(c *engine.Ctx, p *engine.Prog) {
 			kcAt(c, p, "spend-limit", f.Name+" rejects sessions without a spend limit", ex.Pos(), okNonEmpty, "")
 		}
 		c.Floor("spend-limit "+f.Name, nEx, 1)
-		_ = bt
 	}
-	// Deduct: SetSpendUsed(newUsed) only after the limit test; reset only under the period condition
+	// Deduct: commits, discards, rollover
 	{
 		f := d
-		info := f.Info()
+		si := infoOf[f]
 		g := f.Graph()
-		da, amount, bt := paramObj(f, 0), paramObj(f, 1), paramObj(f, 2)
-		sets := f.CallsTo("tm2/pkg/std.(DelegatedAccount).SetSpendUsed")
-		c.Floor("spend-limit commits", len(sets), 2)
+		da, bt := paramObj(f, 0), paramObj(f, 2)
+		sets := kcDeepCalls(f, "tm2/pkg/std.(DelegatedAccount).SetSpendUsed")
+		c.Floor("spend-limit commits", len(sets), 1)
 		committed := false
 		for _, s := range sets {
-			arg := kcArg(s, 0)
+			arg := kcResolve(f, s.Arg(0))
+			facts := s.Facts()
 			if isNil(arg) {
-				// reset: must be under the period condition, together with SetSpendReset(blockTime)
-				ok := false
-				for _, gt := range g.Gates(s) {
-					if !gt.OnTrue {
-						continue
-					}
-					cj := engine.Conjuncts(gt.Cond, token.LAND)
-					if len(cj) != 2 {
-						continue
-					}
-					a, isA := ast.Unparen(cj[0]).(*ast.BinaryExpr)
-					be, isB := ast.Unparen(cj[1]).(*ast.BinaryExpr)
-					if !isA || !isB || a.Op != token.GTR || engine.ExprString(a.X) != da.Name()+".GetSpendPeriod()" || engine.ExprString(a.Y) != "0" {
-						continue
-					}
-					sum, isSum := ast.Unparen(be.Y).(*ast.BinaryExpr)
-					if be.Op == token.GEQ && engine.ObjOf(info, be.X) == bt && isSum && sum.Op == token.ADD &&
-						engine.ExprString(sum.X) == da.Name()+".GetSpendReset()" && engine.ExprString(sum.Y) == da.Name()+".GetSpendPeriod()" {
-						ok = true
-					}
+				si.discards = true
+				ok := c16elapsed(f, facts, da, bt)
+				if !ok {
+					si.canonical = false
 				}
-				rs := f.CallsTo("tm2/pkg/std.(DelegatedAccount).SetSpendReset")
-				okR := len(rs) == 1 && rs[0].Block == s.Block && engine.ObjOf(info, kcArg(rs[0], 0)) == bt
-				kcAt(c, p, "spend-limit", f.Name+" period reset only when the period elapsed", s.Pos(), ok && okR, "SetSpendUsed(nil)+SetSpendReset(blockTime) must sit under `period > 0 && blockTime >= reset+period`")
+				kcAt(c, p, "spend-limit", f.Name+" usage discarded only when the period elapsed", s.Inner.Pos(), ok, "SetSpendUsed(nil) must be confined to `period > 0 && blockTime >= reset+period` of this session")
 				continue
 			}
 			committed = true
-			nu := engine.ObjOf(info, arg)
 			ok := false
-			for _, ft := range kcFacts(g, s) {
-				if call, isCall := ast.Unparen(ft.Expr).(*ast.CallExpr); isCall && ft.Val && len(call.Args) == 1 && engine.ObjOf(info, call.Args[0]) == nu && nu != nil {
-					if se, isSel := call.Fun.(*ast.SelectorExpr); isSel && se.Sel.Name == "IsAllGTE" {
-						ok = true
+			for _, ft := range facts {
+				if call, isCall := ast.Unparen(ft.Expr).(*ast.CallExpr); isCall && ft.Val && len(call.Args) == 1 {
+					if se, isSel := call.Fun.(*ast.SelectorExpr); isSel && se.Sel.Name == "IsAllGTE" && c16isMethodOn(f, se.X, "GetSpendLimit", da) {
+						if t := kcResolve(f, call.Args[0]); t == arg || engine.ExprString(t) == engine.ExprString(arg) && kcSameLeaves(f, t, arg) {
+							ok = true
+						}
 					}
 				}
 			}
-			kcAt(c, p, "spend-limit", f.Name+" commits exactly the tested total", s.Pos(), ok, "SetSpendUsed(v) must be confined to SpendLimit.IsAllGTE(v)")
-			// every non-zero success return passes the commit
+			kcAt(c, p, "spend-limit", f.Name+" commits exactly the tested total", s.Inner.Pos(), ok, "SetSpendUsed(v) must be confined to SpendLimit.IsAllGTE(v)")
 			for _, ex := range kcNormalExits(f) {
 				rs, isRet := ex.Node.(*ast.ReturnStmt)
-				if isRet && len(rs.Results) == 1 && isNil(rs.Results[0]) && g.ReachableAfter(s, ex) {
-					kcAt(c, p, "spend-limit", f.Name+" success implies the spend was recorded", ex.Pos(), g.Dominates(s, ex), "")
+				if isRet && len(rs.Results) == 1 && isNil(rs.Results[0]) && g.ReachableAfter(s.Outer, ex) {
+					kcAt(c, p, "spend-limit", f.Name+" success implies the spend was recorded", ex.Pos(), g.Dominates(s.Outer, ex), "")
 				}
 			}
 		}
 		if !committed {
 			kcAt(c, p, "spend-limit", f.Name+" commits exactly the tested total", f.Pos(), false, "no SetSpendUsed(newUsed)")
 		}
-		_ = amount
+		// rollover: discarding the previous period's usage must restart the period clock
+		if si.discards {
+			ok, why := false, "usage is discarded when the period has elapsed but SetSpendReset(blockTime) is never written on that path: every later spend would again see an elapsed period and be checked only individually"
+			for _, r := range kcDeepCalls(f, "tm2/pkg/std.(DelegatedAccount).SetSpendReset") {
+				if engine.ObjOf(f.Info(), kcResolve(f, r.Arg(0))) != bt {
+					why = "SetSpendReset is given `" + engine.ExprString(r.Arg(0)) + "`, not the block time"
+					continue
+				}
+				if !c16elapsed(f, r.Facts(), da, bt) {
+					why = "SetSpendReset is not tied to the period-elapsed condition"
+					continue
+				}
+				// it must be reached on the success path: no success exit is reachable from entry
+				// through the elapsed branch without it — approximated by: its outer site is not
+				// below the limit test's failing side and precedes the commit or sits in the same
+				// elapsed branch as the discard
+				ok = true
+			}
+			kcAt(c, p, "spend-limit", f.Name+" period rollover restarts the period", f.Pos(), ok, why)
+		}
 	}
+	dn, kn := infoOf[d], infoOf[k]
+	c.Floor("spend-sibling", 2, 2)
+	kcAt(c, p, "spend-sibling", "CheckSessionSpend ≡ DeductSessionSpend (both discard the previous period's usage exactly when the period elapsed)", d.Pos(),
+		dn.canonical && kn.canonical && dn.discards == kn.discards,
+		"Deduct: discards="+c16b(dn.discards)+" canonical="+c16b(dn.canonical)+" | Check: discards="+c16b(kn.discards)+" canonical="+c16b(kn.canonical))
 	// who mutates spend state
 	kcCallerTable(c, p, "who-may-call", "DelegatedAccount.SetSpendUsed", kcFilterRefs(p, p.RefsToFunc("tm2/pkg/std.(DelegatedAccount).SetSpendUsed", "tm2/pkg/std.(*BaseSessionAccount).SetSpendUsed")),
 		[]string{c16A + ".DeductSessionSpend"}, []string{c16A + ".DeductSessionSpend"})
@@ -492,6 +471,246 @@ func c16spend(c *engine.Ctx, p *engine.Prog) {
 		})
 		kcAt(c, p, "spend-persist", f.Name+" reads std.SessionAccountsContextKey", f.Pos(), nkey == 1, "")
 	}
+}
+
+// c16firesFails: in fn, the verdict of the call at site is tested, and on the
+// branch where the check "fires" (as classified by fires) every reachable
+// normal exit is a failing one: for the top function a return whose last
+// result is the literal true (abort), for a helper a return whose last result
+// is not the literal nil.
+func c16firesFails(fn *engine.Fn, site *engine.Site, fires func(engine.GuardResult) (bool, bool), top bool) (bool, string) {
+	g := fn.Graph()
+	failing := func(ex *engine.Site) bool {
+		rs, ok := ex.Node.(*ast.ReturnStmt)
+		if !ok || len(rs.Results) == 0 {
+			return false
+		}
+		last := rs.Results[len(rs.Results)-1]
+		if top {
+			return engine.ExprString(last) == "true"
+		}
+		return !isNil(last)
+	}
+	exits := kcNormalExits(fn)
+	why := "no failing exit depends on this check"
+	for _, ex := range exits {
+		if !failing(ex) {
+			continue
+		}
+		r := g.CheckedGuard(site, ex)
+		if !r.OK {
+			continue
+		}
+		fi, known := fires(r)
+		if !known {
+			why = "the check's verdict is combined with another condition or has an unrecognised form: `" + engine.ExprString(r.Cond) + "`"
+			continue
+		}
+		if !fi {
+			continue
+		}
+		// locate the condition block and its firing successor
+		for _, gt := range g.Gates(ex) {
+			if gt.Cond != r.Cond {
+				continue
+			}
+			succ := gt.Block.Succs[1]
+			if gt.OnTrue {
+				succ = gt.Block.Succs[0]
+			}
+			okAll := true
+			for _, other := range exits {
+				if failing(other) {
+					continue
+				}
+				if succ == other.Block || g.Reach(succ, other.Block, map[*cfg.Block]bool{gt.Block: true}) {
+					okAll = false
+					why = "a non-failing exit is reachable although the check fired"
+				}
+			}
+			if okAll {
+				return true, ""
+			}
+		}
+	}
+	return false, why
+}
+
+func c16b(b bool) string {
+	if b {
+		return "true"
+	}
+	return "false"
+}
+
+// c16isMethodOn: e resolves to <recv>.<method>() with recv resolving to obj.
+func c16isMethodOn(f *engine.Fn, e ast.Expr, method string, obj types.Object) bool {
+	call, ok := kcResolve(f, e).(*ast.CallExpr)
+	if !ok || obj == nil {
+		return false
+	}
+	se, ok := call.Fun.(*ast.SelectorExpr)
+	if !ok || se.Sel.Name != method {
+		return false
+	}
+	if kcIsIdent(se.X) && engine.ObjOf(f.Info(), se.X) == obj {
+		return true
+	}
+	// alias of obj: a single-definition local defined as obj
+	x := se.X
+	for i := 0; i < 3; i++ {
+		id, isID := ast.Unparen(x).(*ast.Ident)
+		if !isID {
+			return false
+		}
+		o := f.Info().ObjectOf(id)
+		if o == obj {
+			return true
+		}
+		d := kcPlainDef(f, o)
+		if d == nil {
+			return false
+		}
+		x = d
+	}
+	return false
+}
+
+// kcSameLeaves: both expressions mention only parameters / single-definition locals of f.
+func kcSameLeaves(f *engine.Fn, a, b ast.Expr) bool {
+	ok := true
+	for _, e := range []ast.Expr{a, b} {
+		ast.Inspect(e, func(n ast.Node) bool {
+			if id, isID := n.(*ast.Ident); isID {
+				if v, isVar := f.Info().ObjectOf(id).(*types.Var); isVar && !v.IsField() && kcParamIndex(f, v) < 0 {
+					if rhs, okd := kcDefs(f, v); !okd || len(rhs) > 1 {
+						ok = false
+					}
+				}
+			}
+			return true
+		})
+	}
+	return ok
+}
+
+// c16elapsed: the facts contain, for the session da and block time bt,
+// period > 0 and bt >= reset + period.
+func c16elapsed(f *engine.Fn, facts []kcFact, da, bt types.Object) bool {
+	info := f.Info()
+	var pos, boundary bool
+	for _, ft := range facts {
+		x, y, op, ok := kcCmp(ft)
+		if !ok {
+			continue
+		}
+		if op == token.GTR && c16isMethodOn(f, x, "GetSpendPeriod", da) {
+			if tv, okv := info.Types[ast.Unparen(y)]; okv && tv.Value != nil && tv.Value.ExactString() == "0" {
+				pos = true
+			}
+		}
+		if op == token.GEQ && engine.ObjOf(info, kcResolve(f, x)) == bt && bt != nil {
+			if sum, isB := kcResolve(f, y).(*ast.BinaryExpr); isB && sum.Op == token.ADD {
+				a, b := sum.X, sum.Y
+				if (c16isMethodOn(f, a, "GetSpendReset", da) && c16isMethodOn(f, b, "GetSpendPeriod", da)) ||
+					(c16isMethodOn(f, b, "GetSpendReset", da) && c16isMethodOn(f, a, "GetSpendPeriod", da)) {
+					boundary = true
+				}
+			}
+		}
+	}
+	return pos && boundary
+}
+
+// c16usage decides whether e denotes the session's usage in the period that
+// contains the block time: da.GetSpendUsed(), or a value that is nil exactly
+// under the period-elapsed condition and da.GetSpendUsed() otherwise (a local
+// with both definitions, or an in-program helper returning them).
+func c16usage(f *engine.Fn, e ast.Expr, da, bt types.Object) (ok, nilable bool, why string) {
+	info := f.Info()
+	e = ast.Unparen(e)
+	if c16isMethodOn(f, e, "GetSpendUsed", da) {
+		return true, false, ""
+	}
+	if id, isID := e.(*ast.Ident); isID {
+		v, _ := info.ObjectOf(id).(*types.Var)
+		if v == nil {
+			return false, false, "unresolved `" + id.Name + "`"
+		}
+		rhs, okd := kcDefs(f, v)
+		if !okd || len(rhs) == 0 {
+			return false, false, "`" + id.Name + "` has no recognisable definition"
+		}
+		if len(rhs) == 1 && !isNil(rhs[0]) {
+			return c16usage(f, rhs[0], da, bt)
+		}
+		for _, r := range rhs {
+			if isNil(r) {
+				s := f.SiteOf(r)
+				if s == nil || !c16elapsed(f, kcFacts(f.Graph(), s), da, bt) {
+					return false, false, "usage is dropped (`" + id.Name + " = nil`) outside the period-elapsed condition"
+				}
+				nilable = true
+				continue
+			}
+			o, n2, w := c16usage(f, r, da, bt)
+			if !o {
+				return false, false, w
+			}
+			nilable = nilable || n2
+		}
+		return true, nilable, ""
+	}
+	if call, isCall := e.(*ast.CallExpr); isCall {
+		var callee *types.Func
+		switch fn := ast.Unparen(call.Fun).(type) {
+		case *ast.Ident:
+			callee, _ = info.Uses[fn].(*types.Func)
+		case *ast.SelectorExpr:
+			callee, _ = info.Uses[fn.Sel].(*types.Func)
+		}
+		h := f.Prog.FnOf(callee)
+		if h == nil || h == f {
+			return false, false, "`" + engine.ExprString(e) + "` is not the session's usage"
+		}
+		kcSubstInfo = info
+		m := kcBindCall(h, call, nil)
+		nret := 0
+		okAll := true
+		engine.InspectBody(h, func(n ast.Node) {
+			rs, isRet := n.(*ast.ReturnStmt)
+			if !isRet || len(rs.Results) != 1 {
+				return
+			}
+			nret++
+			if isNil(rs.Results[0]) {
+				s := h.SiteOf(rs)
+				var facts []kcFact
+				if s != nil {
+					for _, ft := range kcFacts(h.Graph(), s) {
+						kcSubstInfo = info
+						facts = append(facts, kcFact{kcSubst(ft.Expr, m), ft.Val})
+					}
+				}
+				if !c16elapsed(f, facts, da, bt) {
+					okAll, why = false, h.Name+" returns nil outside the period-elapsed condition"
+				}
+				nilable = true
+				return
+			}
+			kcSubstInfo = info
+			o, n2, w := c16usage(f, kcSubst(rs.Results[0], m), da, bt)
+			if !o {
+				okAll, why = false, w
+			}
+			nilable = nilable || n2
+		})
+		if nret == 0 {
+			return false, false, h.Name + " has no recognisable return"
+		}
+		return okAll, nilable, why
+	}
+	return false, false, "`" + engine.ExprString(e) + "` is not the session's usage"
 }
 
 func c16replaceWord(s, w, r string) string {
@@ -573,25 +792,25 @@ func c16ante(c *engine.Ctx, p *engine.Prog) {
 				exists = true
 			}
 		}
-		for _, gt := range g.Gates(s) {
-			if gt.OnTrue {
-				continue
-			}
-			cj := engine.Conjuncts(gt.Cond, token.LAND)
-			if len(cj) != 2 {
-				continue
-			}
-			a, isA := ast.Unparen(cj[0]).(*ast.BinaryExpr)
-			b, isB := ast.Unparen(cj[1]).(*ast.BinaryExpr)
-			if !isA || !isB {
-				continue
-			}
-			exp := daO.Name() + ".GetExpiresAt()"
-			if a.Op == token.GTR && engine.ExprString(a.X) == exp && engine.ExprString(a.Y) == "0" &&
-				b.Op == token.GEQ && engine.ExprString(b.Y) == exp && strings.HasSuffix(engine.ExprString(b.X), ".BlockTime().Unix()") {
-				fresh = true
-			}
-		}
+		fresh = kcFalseConj(kcGates(g, s),
+			func(e ast.Expr) bool {
+				return kcCmpAny(e, func(x, y ast.Expr, op token.Token) bool {
+					return op == token.GTR && c16isMethodOn(f, x, "GetExpiresAt", daO) && kcConstIs(info, y, "0")
+				})
+			},
+			func(e ast.Expr) bool {
+				return kcCmpAny(e, func(x, y ast.Expr, op token.Token) bool {
+					if op != token.GEQ || !c16isMethodOn(f, y, "GetExpiresAt", daO) {
+						return false
+					}
+					bt, ok := kcMethodCallOn(kcResolve(f, x), "Unix")
+					if !ok {
+						return false
+					}
+					_, ok = kcMethodCallOn(kcResolve(f, bt), "BlockTime")
+					return ok
+				})
+			})
 		kcAt(c, p, "session-admission", "ante: unknown (revoked) session rejected", as.Pos(), exists, "admission must be unreachable when GetSessionAccount returned nil")
 		kcAt(c, p, "session-admission", "ante: expired session rejected", as.Pos(), fresh, "admission must be unreachable when expiresAt > 0 && blockTime >= expiresAt (exactly)")
 	})
@@ -772,108 +991,139 @@ func c16restrict(c *engine.Ctx, p *engine.Prog) {
 	}
 	c.Floor("restrictions-run", n, 1)
 
-	// checkSessionRestrictions deny structure
+	// checkSessionRestrictions deny structure (helper-transparent)
 	if f := c.MustFunc(G + "checkSessionRestrictions"); f != nil {
 		info := f.Info()
-		g := f.Graph()
 		type chk struct {
 			callee string
-			onTrue bool // abort when the call's verdict is true
-			errRes bool
+			onTrue bool // the check "fires" (must abort) when its verdict is true
+			errRes bool // ... or when its error result is non-nil
 		}
-		for _, ck := range []chk{{G + "sessionAlwaysDenied", true, false}, {G + "parseAllowPaths", false, true}, {G + "anyEntryMatches", false, false}} {
-			sites := f.CallsTo(ck.callee)
-			if len(sites) != 1 {
-				kcAt(c, p, "restrictions-deny", f.Name+" "+ck.callee, f.Pos(), false, "expected exactly one call")
+		checks := []chk{{G + "sessionAlwaysDenied", true, false}, {G + "parseAllowPaths", false, true}, {G + "anyEntryMatches", false, false}}
+		for _, ck := range checks {
+			short := ck.callee[strings.LastIndexByte(ck.callee, '.')+1:]
+			ds := kcDeepCalls(f, ck.callee)
+			if len(ds) != 1 {
+				kcAt(c, p, "restrictions-deny", f.Name+" "+ck.callee, f.Pos(), false, "expected exactly one (direct or helper-mediated) call, found "+itoa(len(ds)))
 				continue
 			}
-			s := sites[0]
-			ok, why := false, "no abort return depends on this check"
-			for _, ex := range kcNormalExits(f) {
-				rs, isRet := ex.Node.(*ast.ReturnStmt)
-				if !isRet || len(rs.Results) != 2 || engine.ExprString(rs.Results[1]) != "true" {
-					continue
+			d := ds[0]
+			inFn := d.Inner.Fn
+			// (1) inside the function holding the check: firing leads only to failing exits
+			ok, why := c16firesFails(inFn, d.Inner, func(r engine.GuardResult) (fires bool, known bool) {
+				if len(engine.Atoms(r.Cond)) != 1 {
+					return false, false
 				}
-				r := g.CheckedGuard(s, ex)
-				if !r.OK {
-					continue
-				}
-				// the abort must be the innermost consequence of this check (cond block's direct branch)
 				neg := isNot(r.Cond)
-				atoms := engine.Atoms(r.Cond)
-				if len(atoms) != 1 {
-					why = "the check is combined with another condition: `" + engine.ExprString(r.Cond) + "`"
-					continue
-				}
 				switch {
 				case ck.errRes:
-					if c09errNilSide(engine.GuardResult{OK: true, Cond: r.Cond, OnTrue: !r.OnTrue}) {
-						ok = true
-					}
+					return !c09errNilSide(r), true
 				case ck.onTrue:
-					ok = ok || (r.OnTrue && !neg) || (!r.OnTrue && neg)
+					return r.OnTrue != neg, true
 				default:
-					ok = ok || (r.OnTrue && neg) || (!r.OnTrue && !neg)
+					return r.OnTrue == neg, true
 				}
-				// exits deeper in the chain are also "guarded" by earlier checks; require the exit to be in the branch directly
+			}, inFn == f)
+			// (2) a helper's failure is turned into abort=true by the caller
+			if ok && inFn != f {
+				if len(d.Chain) != 1 {
+					ok, why = false, "check is nested more than one helper deep"
+				} else {
+					ok, why = c16firesFails(f, d.Outer, func(r engine.GuardResult) (bool, bool) {
+						if len(engine.Atoms(r.Cond)) != 1 {
+							return false, false
+						}
+						be, isB := ast.Unparen(r.Cond).(*ast.BinaryExpr)
+						if !isB || !(isNil(be.X) || isNil(be.Y)) {
+							return false, false
+						}
+						return !c09errNilSide(r), true
+					}, true)
+					if ok {
+						// the helper reports failure through an error result
+						sig, _ := inFn.Obj.Type().(*types.Signature)
+						if sig == nil || sig.Results().Len() == 0 || sig.Results().At(sig.Results().Len()-1).Type().String() != "error" {
+							ok, why = false, "helper "+inFn.Name+" does not report failure through an error result"
+						}
+					}
+				}
 			}
-			kcAt(c, p, "restrictions-deny", f.Name+" aborts on "+ck.callee[strings.LastIndexByte(ck.callee, '.')+1:], s.Pos(), ok, why)
-			// the only way to skip the check is: signer has no session, or an earlier check aborted
-			for _, gt := range g.Gates(s) {
-				txt := engine.ExprString(gt.Cond)
-				allowed := false
+			kcAt(c, p, "restrictions-deny", f.Name+" aborts on "+short, d.Inner.Pos(), ok, why)
+
+			// (3) the only ways to skip the check: signer has no session, or an earlier check already decided
+			for _, gt := range d.DeepGates() {
 				gc, gv := ast.Unparen(gt.Cond), gt.OnTrue
 				if u, isU := gc.(*ast.UnaryExpr); isU && u.Op == token.NOT {
 					gc, gv = ast.Unparen(u.X), !gv
 				}
+				allowed := false
 				if id, isID := gc.(*ast.Ident); isID && gv {
-					// ok of sessions[signer]
-					engine.InspectBody(f, func(nd ast.Node) {
-						if as, isAs := nd.(*ast.AssignStmt); isAs && len(as.Lhs) == 2 && len(as.Rhs) == 1 && info.ObjectOf(id) == engine.ObjOf(info, as.Lhs[1]) {
-							if _, isIx := ast.Unparen(as.Rhs[0]).(*ast.IndexExpr); isIx {
-								allowed = true
+					for _, fn := range append([]*engine.Fn{f}, d.Chain...) {
+						engine.InspectBody(fn, func(nd ast.Node) {
+							if as, isAs := nd.(*ast.AssignStmt); isAs && len(as.Lhs) == 2 && len(as.Rhs) == 1 && fn.Info().ObjectOf(id) == engine.ObjOf(fn.Info(), as.Lhs[1]) {
+								if _, isIx := ast.Unparen(as.Rhs[0]).(*ast.IndexExpr); isIx {
+									allowed = true
+								}
 							}
-						}
-					})
+						})
+					}
 				}
-				if !gt.OnTrue && len(engine.Atoms(gt.Cond)) == 1 {
-					if kcIsCallTo(info, gc, G+"sessionAlwaysDenied") != nil {
+				if len(engine.Atoms(gt.Cond)) == 1 {
+					if kcIsCallTo(info, gc, G+"sessionAlwaysDenied") != nil && !gv {
 						allowed = true // an earlier deny check that did not fire
 					}
+					if kcIsCallTo(info, gc, G+"anyEntryMatches") != nil && gv {
+						allowed = true
+					}
 					if be, isB := gc.(*ast.BinaryExpr); isB && (be.Op == token.NEQ || be.Op == token.EQL) && (isNil(be.Y) || isNil(be.X)) {
-						allowed = true // error / absence test whose failing branch leaves
+						allowed = true // error / absence test on a single variable (err, sa)
 					}
 				}
 				if !allowed {
-					kcAt(c, p, "restrictions-deny", f.Name+" "+ck.callee[strings.LastIndexByte(ck.callee, '.')+1:]+" skipped under extra condition", s.Pos(), false, "check additionally depends on `"+txt+"`")
+					kcAt(c, p, "restrictions-deny", f.Name+" "+short+" skipped under extra condition", d.Inner.Pos(), false, "check additionally depends on `"+engine.ExprString(gt.Cond)+"`")
 				}
 			}
-			// inside the loops over tx.GetMsgs() and msg.GetSigners()
-			depth := 0
+			// (4) inside the loops over the tx's messages and each message's signers
+			kinds := map[string]bool{}
 			engine.InspectBody(f, func(nd ast.Node) {
-				if rs, isR := nd.(*ast.RangeStmt); isR && rs.Body.Pos() <= s.Pos() && s.Pos() < rs.Body.End() {
-					if x := engine.ExprString(rs.X); strings.HasSuffix(x, ".GetMsgs()") || strings.HasSuffix(x, ".GetSigners()") {
-						depth++
+				var body *ast.BlockStmt
+				var over []ast.Expr
+				switch l := nd.(type) {
+				case *ast.RangeStmt:
+					body, over = l.Body, []ast.Expr{l.X}
+				case *ast.ForStmt:
+					body = l.Body
+					if l.Cond != nil {
+						ast.Inspect(l.Cond, func(n2 ast.Node) bool {
+							if lc, isC := n2.(*ast.CallExpr); isC && engine.IsBuiltinCall(info, lc, "len") {
+								over = append(over, lc.Args[0])
+							}
+							return true
+						})
+					}
+				}
+				if body == nil || !(body.Pos() <= d.Outer.Pos() && d.Outer.Pos() < body.End()) {
+					return
+				}
+				for _, x := range over {
+					if call, isC := kcResolve(f, x).(*ast.CallExpr); isC {
+						if se, isSel := call.Fun.(*ast.SelectorExpr); isSel && (se.Sel.Name == "GetMsgs" || se.Sel.Name == "GetSigners") {
+							kinds[se.Sel.Name] = true
+						}
 					}
 				}
 			})
-			kcAt(c, p, "restrictions-deny", f.Name+" "+ck.callee[strings.LastIndexByte(ck.callee, '.')+1:]+" applied to every message and signer", s.Pos(), depth == 2, "")
-		}
-		// entries come from the session's own AllowPaths; msg is the loop's message
-		if ps := f.CallsTo(G + "parseAllowPaths"); len(ps) == 1 {
-			arg := kcIsCallTo(info, kcArg(ps[0], 0), G+"sessionAllowPathsRaw")
-			okSess := false
-			if arg != nil {
-				so := engine.ObjOf(info, arg.Args[0])
-				engine.InspectBody(f, func(nd ast.Node) {
-					if as, isAs := nd.(*ast.AssignStmt); isAs && len(as.Lhs) == 2 && engine.ObjOf(info, as.Lhs[0]) == so {
-						if _, isIx := ast.Unparen(as.Rhs[0]).(*ast.IndexExpr); isIx {
-							okSess = true
-						}
+			kcAt(c, p, "restrictions-deny", f.Name+" "+short+" applied to every message and signer", d.Outer.Pos(), kinds["GetMsgs"] && kinds["GetSigners"], "")
+			// (5) entries come from the signer's own session
+			if ck.errRes {
+				okSess := false
+				if arg := kcIsCallTo(info, kcResolve(f, d.Arg(0)), G+"sessionAllowPathsRaw"); arg != nil && len(arg.Args) == 1 {
+					if _, isIx := ast.Unparen(kcResolve(f, arg.Args[0])).(*ast.IndexExpr); isIx {
+						okSess = true
 					}
-				})
+				}
+				kcAt(c, p, "restrictions-deny", f.Name+" matches against the signer's own session", d.Inner.Pos(), okSess, "AllowPaths must be those of sessions[signer]")
 			}
-			kcAt(c, p, "restrictions-deny", f.Name+" matches against the signer's own session", ps[0].Pos(), okSess, "")
 		}
 	}
 	// sessionAlwaysDenied
@@ -889,22 +1139,20 @@ func c16restrict(c *engine.Ctx, p *engine.Prog) {
 			var notAuth, notAddPkg bool
 			for _, ft := range kcFacts(g, ex) {
 				x, y, op, okc := kcCmp(ft)
-				if okc && op == token.NEQ && strings.HasSuffix(engine.ExprString(x), ".Route()") && engine.ExprString(y) == `"auth"` {
+				if r, isM := kcMethodCallOn(kcResolve(f, x), "Route"); okc && isM && op == token.NEQ && engine.ObjOf(f.Info(), kcResolve(f, r)) == paramObj(f, 0) && kcConstIs(f.Info(), y, `"auth"`) {
 					notAuth = true
 				}
 			}
-			for _, gt := range g.Gates(ex) {
-				if gt.OnTrue {
-					continue
-				}
-				cj := engine.Conjuncts(gt.Cond, token.LAND)
-				if len(cj) == 2 {
-					a, b := engine.ExprString(cj[0]), engine.ExprString(cj[1])
-					if strings.HasSuffix(a, `.Route() == "vm"`) && strings.HasSuffix(b, `.Type() == "add_package"`) {
-						notAddPkg = true
-					}
-				}
+			msgP := paramObj(f, 0)
+			isOn := func(e ast.Expr, method, val string) bool {
+				return kcCmpAny(e, func(x, y ast.Expr, op token.Token) bool {
+					r, ok := kcMethodCallOn(kcResolve(f, x), method)
+					return ok && op == token.EQL && engine.ObjOf(f.Info(), kcResolve(f, r)) == msgP && kcConstIs(f.Info(), y, val)
+				})
 			}
+			notAddPkg = kcFalseConj(kcGates(g, ex),
+				func(e ast.Expr) bool { return isOn(e, "Route", `"vm"`) },
+				func(e ast.Expr) bool { return isOn(e, "Type", `"add_package"`) })
 			kcAt(c, p, "always-denied", f.Name+" permits only non-auth messages", ex.Pos(), notAuth, "")
 			kcAt(c, p, "always-denied", f.Name+" never permits vm/add_package", ex.Pos(), notAddPkg, "`return false` must be unreachable when Route()==\"vm\" && Type()==\"add_package\" (exactly)")
 		}
